@@ -665,7 +665,7 @@ static int run_program(uint64_t seed, const Program& p, const char* mode) {
       for (size_t k = 0; k < g_bs; ++k)
         if (a.ctor[k] != 1 || a.dtor[k] != 1) { vrt_event("ORACLE ctor/dtor element a%d[%zu] ctor=%d dtor=%d at the end", a.id, k, a.ctor[k], a.dtor[k]); ++g_oracle; }
   }
-  vrt_event("stats steps %lu switches %lu allocs %d", vrt_steps(), vrt_switches(), g_nid);
+  vrt_event("stats steps %lu switches %lu allocs %d stale %lu", vrt_steps(), vrt_switches(), g_nid, (unsigned long)vrt_stale_reads());
   g_track = false;
   vrt_end();
   vrt_clock_hook(nullptr);
